@@ -5,7 +5,7 @@ PROP_UNITS = {
     # int_bits_signed, the val/ref forms of the float and rational arms), hence the forms agree wherever the
     # postcondition determines the result. Forms not instantiated are listed in those units' own `undecided`.
     'C15': {'verus': ['int_add_ops', 'int_add_ops_signed', 'int_add_ops_panic', 'int_mul_ops', 'int_ops_sign',
-                      'int_div_sign', 'int_bits_signed', 'int_shift_ops', 'ratio_ops', 'ratio_int_ops'],
+                      'int_div_sign', 'int_bits_signed', 'int_shift_ops', 'ratio_ops', 'ratio_int_ops', 'float_add'],
             'undecided': ['op-assign forms and primitive-operand forwarding macros (helper_macros.rs) are only '
                           'covered by the bounded Kani group int_forms where registered',
                           'FBig operator vs Context method at the same precision: only float_mul / float_add_ops']},
